@@ -2,6 +2,7 @@ import XdslModel.StructEq
 import XdslProofs.Lemmas.AL
 /-!
 Definitions (`Agree`, `Iso`, `WF`, `Scoped`, `Sep`, `Shape`) and helper lemmas for C03.
+`Sep a b` is what the final step of the repaired code (`oneToOne`) checks: `oneToOne_iff_sep`.
 -/
 namespace Xdsl.StructEq
 open Xdsl
@@ -359,6 +360,38 @@ theorem prePairsBlocks_self (b : T) : ∀ q ∈ prePairsBlocks b b, q.2 = q.1 :=
     · exact blockPairs_self _ _ _ q hq
     · exact ih q hq
   | region bs n _ _ => simp [prePairsBlocks]
+
+theorem isImage_iff {c : Ctx} {x : Nat} : isImage c x = true ↔ ∃ k, AL.get c k = some x := by
+  simp only [isImage, List.any_eq_true, Bool.and_eq_true, beq_iff_eq]
+  constructor
+  · rintro ⟨q, _, h1, h2⟩
+    exact ⟨q.1, h2 ▸ h1⟩
+  · rintro ⟨k, hk⟩
+    exact ⟨(k, x), get_some_mem hk, hk, rfl⟩
+
+theorem oneToOne_iff {c : Ctx} {a : T} :
+    oneToOne c a = true ↔ ∀ u ∈ uses a, AL.get c u = none → ¬ ∃ k, AL.get c k = some u := by
+  simp only [oneToOne, List.all_eq_true, Bool.or_eq_true, Bool.not_eq_true', ← isImage_iff]
+  constructor
+  · intro h u hu hn
+    rcases h u hu with h1 | h1
+    · simp [hn] at h1
+    · simp [h1]
+  · intro h u hu
+    cases hg : AL.get c u with
+    | some x => simp
+    | none =>
+      right
+      have := h u hu hg
+      simpa using this
+
+/-- a context that maps objects to themselves passes the one-to-one check -/
+theorem oneToOne_pid {c : Ctx} (hc : PId c) (a : T) : oneToOne c a = true := by
+  rw [oneToOne_iff]
+  rintro u _ hn ⟨k, hk⟩
+  have := hc k u hk
+  subst this
+  simp [hk] at hn
 
 theorem eqT_self (a : T) : ∀ c, PId c → ∃ c', eqT a a c = some c' ∧ PId c' := by
   induction a with
@@ -976,24 +1009,80 @@ theorem pairs_get {a b : T} (hw : WF a) (hs : Shape a b) :
   · rw [shape_pairs_fst a b hs]; exact hw
   · exact hq
 
+/-- The context a successful walk from the empty context leaves behind (it is part of the
+positional pairing and has every definition of `a` registered) has exactly the definitions of `a`
+as keys and exactly the definitions of `b` as values, so the final one-to-one check of the code
+is the separation `Sep a b`. -/
+theorem oneToOne_iff_sep {a b : T} {c' : Ctx} (hw : WF a) (hs : Shape a b)
+    (hsub : Sub c' (pairs a b)) (hreg : ∀ k ∈ defs a, Reg c' k) :
+    oneToOne c' a = true ↔ Sep a b := by
+  have hkey : ∀ u, AL.get c' u = none ↔ u ∉ defs a := by
+    intro u
+    constructor
+    · intro hn hd; exact hreg u hd hn
+    · intro hd
+      cases hg : AL.get c' u with
+      | none => rfl
+      | some x =>
+        exfalso
+        have h1 := hsub u x hg
+        have h2 : AL.get (pairs a b) u = none := by
+          rw [get_none_iff, shape_pairs_fst a b hs]; exact hd
+        simp [h1] at h2
+  have himg : ∀ x, (∃ k, AL.get c' k = some x) ↔ x ∈ defs b := by
+    intro x
+    constructor
+    · rintro ⟨k, hk⟩
+      rw [← shape_pairs_snd a b hs]
+      exact List.mem_map.mpr ⟨(k, x), get_some_mem (hsub k x hk), rfl⟩
+    · intro hx
+      rw [← shape_pairs_snd a b hs] at hx
+      obtain ⟨q, hq, rfl⟩ := List.mem_map.mp hx
+      have hq1 : q.1 ∈ defs a := by
+        rw [← shape_pairs_fst a b hs]; exact List.mem_map.mpr ⟨q, hq, rfl⟩
+      have hp := pairs_get hw hs q hq
+      cases hg : AL.get c' q.1 with
+      | none => exact absurd hg (hreg q.1 hq1)
+      | some y =>
+        have := hsub q.1 y hg
+        rw [hp] at this
+        simp at this
+        exact ⟨q.1, by rw [hg, this]⟩
+  rw [oneToOne_iff]
+  simp only [hkey, himg, Sep]
+
 theorem structEq_iff_agree_of_shape {a b : T} (hw : WF a) (hsc : Scoped a) (hs : Shape a b) :
-    structEq a b = true ↔ Agree (lookup (pairs a b)) a b := by
+    structEq a b = true ↔ Agree (lookup (pairs a b)) a b ∧ Sep a b := by
   have h := eqT_main (pairs a b) a b [] [] hs (pairs_get hw hs) (by intro k x hk; simp at hk)
     (by simp) (by rw [shape_pairs_fst a b hs]; exact hsc)
-  exact h.2
+  unfold structEq
+  cases e : eqT a b [] with
+  | none =>
+    constructor
+    · intro hx; simp at hx
+    · intro hx
+      have := h.2.mpr hx.1
+      simp [e] at this
+  | some c' =>
+    obtain ⟨hsub, hreg⟩ := h.1 c' e
+    have hag : Agree (lookup (pairs a b)) a b := h.2.mp (by simp [e])
+    simp only
+    rw [oneToOne_iff_sep hw hs hsub (fun k hk => hreg k (by simpa using hk))]
+    exact ⟨fun hx => ⟨hag, hx⟩, fun hx => hx.2⟩
+
+theorem structEq_shape {a b : T} (h : structEq a b = true) : Shape a b := by
+  unfold structEq at h
+  cases e : eqT a b [] with
+  | none => simp [e] at h
+  | some c' => exact eqT_shape a b [] c' e
 
 theorem structEq_iff_agree {a b : T} (hw : WF a) (hsc : Scoped a) :
-    structEq a b = true ↔ Agree (lookup (pairs a b)) a b := by
+    structEq a b = true ↔ Agree (lookup (pairs a b)) a b ∧ Sep a b := by
   constructor
   · intro h
-    have hs : Shape a b := by
-      unfold structEq at h
-      cases e : eqT a b [] with
-      | none => simp [e] at h
-      | some c' => exact eqT_shape a b [] c' e
-    exact (structEq_iff_agree_of_shape hw hsc hs).mp h
+    exact (structEq_iff_agree_of_shape hw hsc (structEq_shape h)).mp h
   · intro h
-    exact (structEq_iff_agree_of_shape hw hsc (agree_shape a b h)).mpr h
+    exact (structEq_iff_agree_of_shape hw hsc (agree_shape a b h.1)).mpr h
 
 /-- the positional map sends a definition of `a` to the definition of `b` at the same place -/
 theorem lookup_pairs_mem {a b : T} (hw : WF a) (hs : Shape a b) {u : Nat} (hu : u ∈ defs a) :
